@@ -763,7 +763,8 @@ func (n *node) invariants(out *caseOut) {
 			out.fail("da-included-unsound", fmt.Sprintf("DA-included height is %d but block %d is not entirely on the DA layer (header %v, data %v)", di, h, a, b))
 		}
 	}
-	if p, ok := n.metaU64(store.DAIncludedHeightKey); (ok && p != di) || (!ok && di != 0) {
+	// nothing persisted yet: the DA-included height is the height below the initial one (0 for initial height 1)
+	if p, ok := n.metaU64(store.DAIncludedHeightKey); (ok && p != di) || (!ok && di != ini-1) {
 		out.fail("da-included-not-durable", fmt.Sprintf("DA-included height %d, persisted %d (%v)", di, p, ok))
 	}
 	n.exec.mu.Lock()
@@ -846,7 +847,8 @@ func genCase(seed int64, idx int) *Case {
 	return c
 }
 
-// Part B: one scenario per (function, kind, channel) the regenerated table lists as not cancellable
+// Part B: one scenario per (function, kind, channel) the table listed as not cancellable before the repairs
+// ca974a2 / c53a06a / 03584e7 (each was a confirmed hang; each must now halt), plus g.Wait (still listed)
 func scenarios() []*Case {
 	full := func(name string) *Case {
 		return &Case{Scenario: name, Mode: "full", InitialHeight: 1, BlockTimeMs: 1000, DABlockTimeMs: 500, ChainLen: 8,
@@ -1137,7 +1139,7 @@ func TestVerif(t *testing.T) {
 		res.Extra["part_B_scenarios"] = scen
 	}
 	res.Distinct = len(distinct)
-	res.Rule = "the node's loop fan-out as in FullNode.Run (one-slot errCh, five loops per mode, select on errCh / parent context, wg.Wait; compared with node/full.go on every run), real block.Manager / Reaper / store, unmodified loops, in a synctest bubble; the node is constructed with one context and run with another (or, 50% of the in-flight cases, the same, as cmd does), Run derives its own; doubles: execution layer (per-call delay, cancellation lag, may ignore its context, may fail from a height on; in 15% of the cases one external call - any of the 12 the loops make - blocks until the context it was given is done), FIFO sequencer, DA layer (delays, every k-th call fails), broadcasters, P2P stores; aggregator cases (55%): genesis 0..5 s in the past or 0.1..4.1 s in the future, lazy 30%, initial height 1 or 5, pending limit 0/2/5, mempool 0/150/700 ms, DA fast/slow; full-node cases (45%): the proposer's chain of 2..8 blocks made by a real aggregator Manager and submitted with its own code, delivered by DA, P2P or both; stop instant 0, <50 ms or uniform in 0..12 s; verdict 1 s (virtual) after the stop request; plus one fixed scenario per operation the regenerated table lists as not cancellable and one 'call in flight at the stop instant' scenario per external call of each loop (16); non-trivial = at least one block committed; distinct = distinct (mode, lazy, genesis sign, parking positions, stuck positions)"
+	res.Rule = "the node's loop fan-out as in FullNode.Run (one-slot errCh, five loops per mode, select on errCh / parent context, wg.Wait; compared with node/full.go on every run), real block.Manager / Reaper / store, unmodified loops, in a synctest bubble; the node is constructed with one context and run with another (or, 50% of the in-flight cases, the same, as cmd does), Run derives its own; doubles: execution layer (per-call delay, cancellation lag, may ignore its context, may fail from a height on; in 15% of the cases one external call - any of the 12 the loops make - blocks until the context it was given is done), FIFO sequencer, DA layer (delays, every k-th call fails), broadcasters, P2P stores; aggregator cases (55%): genesis 0..5 s in the past or 0.1..4.1 s in the future, lazy 30%, initial height 1 or 5, pending limit 0/2/5, mempool 0/150/700 ms, DA fast/slow; full-node cases (45%): the proposer's chain of 2..8 blocks made by a real aggregator Manager and submitted with its own code, delivered by DA, P2P or both; stop instant 0, <50 ms or uniform in 0..12 s; verdict 1 s (virtual) after the stop request; plus one fixed scenario per operation the table listed as not cancellable before the repairs (they must now halt) and one 'call in flight at the stop instant' scenario per external call of each loop (16); non-trivial = at least one block committed; distinct = distinct (mode, lazy, genesis sign, parking positions, stuck positions)"
 	sort.Strings(dt.defs)
 	res.Cases = len(cases)
 	header := "From Coq Require Import String NArith List Bool.\nFrom Verif Require Import Model.StopProto gen.BlockPoints Check.StopCheck."
